@@ -199,6 +199,14 @@ def exc_sig(e):
     return type(e).__name__
 
 
+def raised_in_pydcop(e):
+    """True when the innermost frame of the exception is pyDCOP code (not this check)."""
+    tb = e.__traceback__
+    while tb.tb_next is not None:
+        tb = tb.tb_next
+    return "pydcop" in tb.tb_frame.f_code.co_filename
+
+
 # ----------------------------------------------------------------------------- layer R : removal info
 
 
@@ -384,7 +392,7 @@ def k_hosted(case, part, verbose=False):
             part.violation("hosted|" + kind,
                            f"hosted constraint over candidates {agts}: assignment {ass} ({s} hosts) scores {got}, "
                            f"expected {'0' if s == 1 else 'non-zero'}", case)
-    if len(c.dimensions) != case["n"]:
+    if sorted(v.name for v in c.dimensions) != sorted(v.name for v in bin_vars.values()):
         part.violation("hosted|scope", f"hosted constraint over {agts} has scope {[v.name for v in c.dimensions]}", case)
     return got_vec
 
@@ -406,7 +414,7 @@ def k_capacity(case, part, verbose=False):
         part.count("assignments")
         got = eval_constraint(c, ass)
         got_vec.append(got)
-        sel = [table[names[v]] for v, x in ass.items() if x]
+        sel = [table[names[v]] for v, x in ass.items() if x and v in names]
         fits = ref_capacity_fits(sel, remaining)
         if verbose:
             print(ass, "->", got, "expected", "0" if fits else "non-zero", "(selected", sum(sel), "remaining", remaining, ")")
@@ -418,8 +426,8 @@ def k_capacity(case, part, verbose=False):
             part.violation("capacity|" + kind,
                            f"capacity constraint footprints={table} remaining={remaining}: assignment {ass} selects "
                            f"{sum(sel)} and scores {got}, expected {'0' if fits else 'non-zero'}", case)
-    if sorted(names) != sorted(v.name for v in c.dimensions):
-        part.violation("capacity|scope", f"capacity constraint scope {[v.name for v in c.dimensions]} expected {sorted(names)}", case)
+    if set(names) - {v.name for v in c.dimensions}:
+        part.violation("capacity|scope-missing", f"capacity constraint scope {[v.name for v in c.dimensions]} expected {sorted(names)}", case)
     return got_vec
 
 
@@ -440,29 +448,31 @@ def k_hosting(case, part, verbose=False):
         part.count("assignments")
         got = eval_constraint(c, ass)
         got_vec.append(got)
-        exp = sum(table[names[v]] * x for v, x in ass.items())
+        exp = sum(table[names[v]] * x for v, x in ass.items() if v in names)
         if verbose:
             print(ass, "->", got, "expected", exp)
         if not close(got, exp):
             part.violation("hosting|sum-mismatch",
                            f"hosting constraint costs={table}: assignment {ass} scores {got}, expected {exp}", case)
-    if sorted(names) != sorted(v.name for v in c.dimensions):
-        part.violation("hosting|scope", f"hosting constraint scope {[v.name for v in c.dimensions]} expected {sorted(names)}", case)
+    if set(names) - {v.name for v in c.dimensions}:
+        part.violation("hosting|scope-missing", f"hosting constraint scope {[v.name for v in c.dimensions]} expected {sorted(names)}", case)
     return got_vec
 
 
 def comm_compare(got, ass, x_local_name, fixed_terms, cand_terms, label, descr, case, part, verbose=False):
-    """cand_terms: [(variable name, cost)]"""
-    missing = [v for v, _ in cand_terms if v not in ass] + ([x_local_name] if x_local_name not in ass else [])
+    """cand_terms: [(variable name, cost)]. A variable the sum really depends on must be in the scope."""
+    missing = [v for v, cost in cand_terms if v not in ass and cost != 0]
+    if x_local_name not in ass and (any(fixed_terms) or any(cost for _, cost in cand_terms)):
+        missing.append(x_local_name)
     if missing:
         part.violation(label + "|scope-missing", f"{descr}: scope {sorted(ass)} misses {missing}", case)
         return False
-    exp, exp_f, exp_c = ref_comm(ass[x_local_name], fixed_terms, [(ass[v], cost) for v, cost in cand_terms])
+    exp, exp_f, exp_c = ref_comm(ass.get(x_local_name, 0), fixed_terms, [(ass.get(v, 0), cost) for v, cost in cand_terms])
     if verbose:
         print(ass, "->", got, "expected", exp)
     if close(got, exp):
         return True
-    if ass[x_local_name] == 0:
+    if ass.get(x_local_name, 0) == 0:
         kind = "cost-without-local-hosting"
     elif exp_f != 0 and close(got, exp_c):
         kind = "fixed-neighbours-dropped"
@@ -558,7 +568,13 @@ def k_shard(job, part):
     for i, case in enumerate(k_cases(quick)):
         if i % n != idx:
             continue
-        got_vec = K_FUNCS[case["kind"]](case, part)
+        try:
+            got_vec = K_FUNCS[case["kind"]](case, part)
+        except Exception as e:
+            if not raised_in_pydcop(e):
+                raise  # a bug of this check: HARNESS-ERROR
+            part.violation(case["kind"] + "|raised|" + exc_sig(e), f"{case}: building or evaluating the constraint raised {e!r}", case)
+            got_vec = ["raised"]
         part.count("evaluations")
         part.count("constraints_" + case["kind"])
         if k_nontrivial(case, got_vec):
@@ -686,28 +702,40 @@ def p_agent_check(st, menu_idx, agent, info, part, verbose=False):
         part.violation("pipeline|repair-computations", f"{descr}: repair computations for {sorted(generated)} expected {my_comps}", case)
         return ("wrong-computations", tuple(sorted(generated)))
 
-    def scope_ok(constraint, expected_names, label):
+    def scope_ok(constraint, expected_names, label, exact=False):
+        """hosted: the scope IS the candidate set of the property; elsewhere extra variables are tolerated
+        (the reference ignores them, so the score must not depend on them)."""
         got = sorted(v.name for v in constraint.dimensions)
-        if got != sorted(expected_names):
+        if set(expected_names) - set(got) or (exact and got != sorted(expected_names)):
             part.violation(f"pipeline|{label}|scope", f"{descr}: {constraint.name} has scope {got} expected {sorted(expected_names)}", case)
             return False
         return True
+
+    def score(constraint, ass, label):
+        """the real constraint on one assignment; an exception prevents the stated result"""
+        try:
+            return True, eval_constraint(constraint, ass)
+        except Exception as e:
+            part.violation(f"pipeline|{label}|raised|" + exc_sig(e), f"{descr}: {constraint.name} {ass} raised {e!r}", case)
+            return False, None
 
     for c in my_comps:
         cons = generated[c]
         wanted = {"hosted": f"{c}_hosted", "capacity": f"{agent}_capacity", "hosting": f"{agent}_hosting",
                   "comm": f"comm_{agent}_{c}"}
-        if sorted(cons) != sorted(wanted.values()):
-            part.violation("pipeline|constraint-set", f"{descr}: constraints of repair computation for {c}: {sorted(cons)} "
+        if set(wanted.values()) - set(cons):
+            part.violation("pipeline|constraint-missing", f"{descr}: constraints of repair computation for {c}: {sorted(cons)} "
                            f"expected {sorted(wanted.values())}", case)
             continue
         # hosted: exactly one of the surviving replica holders
         k = cons[wanted["hosted"]]
-        if scope_ok(k, [var(c, a) for a in surv[c]], "hosted"):
+        if scope_ok(k, [var(c, a) for a in surv[c]], "hosted", exact=True):
             for ass in assignments([v.name for v in k.dimensions]):
                 part.count("assignments")
-                got = eval_constraint(k, ass)
-                outcome.append(got)
+                ok, got = score(k, ass, "hosted")
+                if not ok:
+                    break
+                outcome.append((k.name, tuple(sorted(ass.items())), got))
                 if verbose:
                     print(k.name, ass, "->", got)
                 if (got == 0) != ref_hosted(ass.values()):
@@ -721,9 +749,11 @@ def p_agent_check(st, menu_idx, agent, info, part, verbose=False):
         if scope_ok(k, names, "capacity"):
             for ass in assignments([v.name for v in k.dimensions]):
                 part.count("assignments")
-                got = eval_constraint(k, ass)
-                outcome.append(got)
-                sel = sum(fp[names[v]] for v, x in ass.items() if x)
+                ok, got = score(k, ass, "capacity")
+                if not ok:
+                    break
+                outcome.append((k.name, tuple(sorted(ass.items())), got))
+                sel = sum(fp[names[v]] for v, x in ass.items() if x and v in names)
                 fits = ref_capacity_fits([sel], capacity - hosted_fp)
                 if verbose:
                     print(k.name, ass, "->", got, "selected", sel, "remaining", capacity - hosted_fp)
@@ -738,9 +768,11 @@ def p_agent_check(st, menu_idx, agent, info, part, verbose=False):
         if scope_ok(k, names, "hosting"):
             for ass in assignments([v.name for v in k.dimensions]):
                 part.count("assignments")
-                got = eval_constraint(k, ass)
-                outcome.append(got)
-                exp = sum(hosting_cost(names[v]) * x for v, x in ass.items())
+                ok, got = score(k, ass, "hosting")
+                if not ok:
+                    break
+                outcome.append((k.name, tuple(sorted(ass.items())), got))
+                exp = sum(hosting_cost(names[v]) * x for v, x in ass.items() if v in names)
                 if verbose:
                     print(k.name, ass, "->", got, "expected", exp)
                 if not close(got, exp):
@@ -752,19 +784,17 @@ def p_agent_check(st, menu_idx, agent, info, part, verbose=False):
         fixed_terms = [algo_mod.communication_load(node, n) * route(hosts[n]) for n in nbrs[c] if n not in orph]
         cand_terms = [(var(n, a), algo_mod.communication_load(node, n) * route(a))
                       for n in nbrs[c] if n in orph for a in surv[n]]
-        if scope_ok(k, [var(c, agent)] + [v for v, _ in cand_terms], "comm"):
-            for ass in assignments([v.name for v in k.dimensions]):
-                part.count("assignments")
-                try:
-                    got = eval_constraint(k, ass)
-                except Exception as e:
-                    part.violation("pipeline|comm|raised|" + exc_sig(e), f"{descr}: {k.name} {ass} raised {e!r}", case)
-                    break
-                outcome.append(got)
-                if not comm_compare(got, ass, var(c, agent), fixed_terms, cand_terms, "pipeline|comm",
-                                    f"{descr}: {k.name}", case, part, verbose):
-                    break
-    return tuple(outcome)
+        # (comm_compare reports a scope that misses a variable the sum depends on)
+        for ass in assignments([v.name for v in k.dimensions]):
+            part.count("assignments")
+            ok, got = score(k, ass, "comm")
+            if not ok:
+                break
+            outcome.append((k.name, tuple(sorted(ass.items())), got))
+            if not comm_compare(got, ass, var(c, agent), fixed_terms, cand_terms, "pipeline|comm",
+                                f"{descr}: {k.name}", case, part, verbose):
+                break
+    return tuple(sorted(outcome))  # order-free: scope order follows set iteration order
 
 
 def p_state_check(st, menu_idx, part, only_agent=None, verbose=False):
@@ -871,7 +901,13 @@ def replay(case):
     if case["layer"] == "R":
         print(r_state_check(case["state"], part, verbose=True))
     elif case["layer"] == "K":
-        print(K_FUNCS[case["kind"]](case, part, verbose=True))
+        try:
+            print(K_FUNCS[case["kind"]](case, part, verbose=True))
+        except Exception as e:
+            if not raised_in_pydcop(e):
+                raise
+            print("raised", repr(e))
+            return True
     else:
         p_state_check(case["state"], case["menu"], part, only_agent=case["agent"], verbose=True)
     for v in part.violations:
